@@ -3285,6 +3285,22 @@ class RockRidge:
 
         return new_dr_len
 
+    def has_file_links(self):
+        # type: () -> bool
+        """
+        Determine whether this entry records a number of POSIX file links
+        (that is, whether it has a PX record).
+
+        Parameters:
+         None.
+        Returns:
+         True if this entry has a number of POSIX file links, False otherwise.
+        """
+        if not self._initialized:
+            raise pycdlibexception.PyCdlibInternalError('Rock Ridge extension not initialized')
+
+        return self.dr_entries.px_record is not None or self.ce_entries.px_record is not None
+
     def add_to_file_links(self):
         # type: () -> None
         """
